@@ -94,7 +94,7 @@ def loadSwb (a : SwbAcct) (now cfgAge : Int) : Feed :=
   else .swb a.value a.stdDev
 
 def exp10fx (n : Int) : Res Int :=
-  if 0 ≤ n then match EXP_10_I80F48[n.toNat]? with | some e => .ok e | none => .error .panic else .error .panic
+  if 0 ≤ n then match POW10FX[n.toNat]? with | some e => .ok e | none => .error .panic else .error .panic
 
 /-- `pyth_price_components_to_i80f48(I80F48::from_num(x), exponent)` -/
 def pythComponents (x expo : Int) : Res Int := do
